@@ -204,16 +204,21 @@ def parse_stagein(line):
     return {'res': [parts[0]], 'input': parts[1]}
 
 
-def index_through_unwound(stage):
+def index_through_unwound(stage, docs=None):
     """`$unwind` whose includeArrayIndex is a dotted name that goes through the unwound field
-    itself: `_set_index` then enters the re-attached ORIGINAL element (an object of the stage's
-    input) — outside the heap model, and not judged for input-unchanged"""
+    itself, on input documents (`docs`; None = any) that hold a SUB-DOCUMENT there: a value that
+    is no array is re-attached to the output document as it is, and `_set_index` then enters it —
+    an object of the stage's input.  (Array elements are the output document's own copies.)
+    Outside the heap model, and not judged for input-unchanged."""
     for op, opts in stage.items():
         if op == '$unwind' and isinstance(opts, dict):
             ix, path = opts.get('includeArrayIndex'), opts.get('path')
             if isinstance(ix, str) and isinstance(path, str) and '.' in ix and \
                     ix.split('.')[0] == path[1:].split('.')[0]:
-                return True
+                if docs is None:
+                    return True
+                key = path[1:].split('.')[0]
+                return any(isinstance(d, dict) and isinstance(d.get(key), dict) for d in docs)
     return False
 
 
